@@ -31,7 +31,11 @@ theorem template_constants_sound :
       [("\"{{.Name}}\"", "EXCEPTION"), ("\"{{.Name}}\"", "REPLY"), ("name", "EXCEPTION")] ∧
     Generated.C08.clientCalls = [("\"{{.Name}}\"", "&_args", "&_result"), ("\"{{.Name}}\"", "&_args", "nil")] ∧
     Generated.C08.synthesized = [("args", "v.Name + \"_args\""), ("result", "v.Name + \"_result\""),
-      ("success.id", "0"), ("success.name", "\"success\""), ("success.req", "parser.FieldType_Optional")] := by
+      ("success.id", "0"), ("success.name", "\"success\""), ("success.req", "parser.FieldType_Optional")] ∧
+    Generated.C08.streaming = [("guard", "!g.utils.Features().ThriftStreaming"), ("loop", "req.GetAST().DepthFirstSearch()"),
+      ("filter", "st.IsStreaming"),
+      ("key", "\"streaming.mode\""), ("StreamingModeKey", "\"streaming.mode\""), ("StreamingBidirectional", "\"bidirectional\""),
+      ("StreamingClientSide", "\"client\""), ("StreamingServerSide", "\"server\""), ("StreamingUnary", "\"unary\"")] := by
   decide
 
 /-- **msg_roundtrip**: the strict-write message header is read back exactly (any trailing bytes untouched),
@@ -115,6 +119,26 @@ theorem unknown_method (P : Prog) (svc : Service) (h : Handler) (name : Bytes) (
   · intro hl
     have := readAppExc_enc (asc "Unknown function " ++ name) UNKNOWN_METHOD [] (by simp [asc]) hl (by decide)
     simpa [UNKNOWN_METHOD] using this
+
+/-- **streaming_removed**: without `thrift_streaming`, a function carrying a `streaming.mode` annotation (any mode) is
+not part of the generated service — of ANY file of the program: the filter runs over every AST reachable from the
+request's (`loop` in `template_constants_sound`; before fix 6b9b20c only the main file was filtered), and the model
+applies `keptMethods` to every service of the table alike: the method table is `keptMethods` of the IDL functions, and a CALL with the
+streaming function's name is answered like any unknown name — UNKNOWN_METHOD with the same name and seqid, handler
+not invoked, args consumed (function names of a service are pairwise distinct: semantic checker). -/
+theorem streaming_removed (P : Prog) (fns : List Fn) (h : Handler) (f : Fn) (hf : f ∈ fns) (hs : f.isStreaming = true)
+    (hd : (fns.map (·.m.name)).Nodup) (ty seq : Nat) (args : WVal) (r : Bytes)
+    (hn : f.m.name.length < maxSize) (ht : ty < 256) (hsq : seq < 256 ^ 4)
+    (hst : args.ttype = .struct) (hwf : WF args) (hdp : args.depth ≤ 64) :
+    f.m ∉ keptMethods fns ∧
+    let po := process P (.root (keptMethods fns)) h (encMsg f.m.name ty seq ++ (encW args ++ r))
+    po.log = [] ∧ po.rest = some r ∧
+    po.reply = encMsg f.m.name tEXCEPTION seq ++ encW (appExcW (asc "Unknown function " ++ f.m.name) UNKNOWN_METHOD) := by
+  have hnot := kept_not_streaming fns f hf hs hd
+  refine ⟨fun hin => hnot (List.mem_map.mpr ⟨f.m, hin, rfl⟩), ?_⟩
+  have := unknown_method P (.root (keptMethods fns)) h f.m.name ty seq args r (by simpa [Service.methods] using hnot)
+    hn ht hsq hst hwf hdp
+  exact ⟨this.1, this.2.1, this.2.2.2.1⟩
 
 /-- **wire_shape**, request: the args struct carries one field per argument, all of them, in IDL order, each
 under its IDL id (as a 16-bit pattern). -/
